@@ -25,6 +25,16 @@ package keys_and_cert
 //@ spec func KacBlock(k *KeysAndCert) []byte { return cat(k.ReceivingPublic.Bytes(), k.Padding, k.SigningPublic.Bytes()) }
 //@ spec func KacWire(k *KeysAndCert) []byte { return cat(KacBlock(k), certificate.CertWire(&k.KeyCertificate.Certificate)) }
 
+// KacMatches: every component of k is the corresponding part of data.
+//@ spec func KacMatches(k *KeysAndCert, data []byte) bool {
+//@   return seqeq(k.ReceivingPublic.Bytes(), data[:CS(k)]) && seqeq(k.SigningPublic.Bytes(), data[384-SS(k):384]) && seqeq(k.Padding, data[CS(k):384-SS(k)]) &&
+//@     seqeq(certificate.CertKind(&k.KeyCertificate.Certificate), data[384:385]) && seqeq(certificate.CertLenBytes(&k.KeyCertificate.Certificate), data[385:387]) && seqeq(certificate.CertPayload(&k.KeyCertificate.Certificate), data[387:])
+//@ }
+// KacIsBytes: b is the serialisation of k, component by component.
+//@ spec func KacIsBytes(k *KeysAndCert, b []byte) bool {
+//@   return len(b) == 387+certificate.CertDataLen(&k.KeyCertificate.Certificate) && seqeq(b[:CS(k)], k.ReceivingPublic.Bytes()) && seqeq(b[CS(k):384-SS(k)], k.Padding) && seqeq(b[384-SS(k):384], k.SigningPublic.Bytes()) &&
+//@     seqeq(b[384:385], certificate.CertKind(&k.KeyCertificate.Certificate)) && seqeq(b[385:387], certificate.CertLenBytes(&k.KeyCertificate.Certificate)) && seqeq(b[387:], certificate.CertPayload(&k.KeyCertificate.Certificate)[:certificate.CertDataLen(&k.KeyCertificate.Certificate)])
+//@ }
 //@ spec func certLen(data []byte) int { return 3 + u16(data[385:387]) }
 
 // KacAccepts: exactly the inputs ReadKeysAndCert accepts; KacExtent: what it consumes.
@@ -48,10 +58,11 @@ package keys_and_cert
 //@ contract ReadKeysAndCert(data []byte) (k *KeysAndCert, remainder []byte, err error)
 //@   ensures @C08 fresh(k.Padding) && fresh(k.KeyCertificate.SpkType) && fresh(k.KeyCertificate.CpkType) && fresh(certificate.CertPayload(&k.KeyCertificate.Certificate)) && fresh(certificate.CertKind(&k.KeyCertificate.Certificate)) && fresh(certificate.CertLenBytes(&k.KeyCertificate.Certificate))
 //@   ensures @C08 fresh(k.ReceivingPublic.Bytes()) && fresh(k.SigningPublic.Bytes())
+//@   ensures disjoint(k.Padding, certificate.CertPayload(&k.KeyCertificate.Certificate), certificate.CertKind(&k.KeyCertificate.Certificate), certificate.CertLenBytes(&k.KeyCertificate.Certificate), k.ReceivingPublic.Bytes(), k.SigningPublic.Bytes())
 //@   ensures @C01 @C02 @C03 (err == nil) == KacAccepts(data)
 //@   ensures @C03 err == nil ==> suffix(remainder, data, KacExtent(data))
 //@   ensures @C01 @C10 err == nil ==> KacInv(k)
-//@   ensures @C01 err == nil ==> seqeq(KacWire(k), data[:384+certLen(data)])
+//@   ensures @C01 err == nil ==> seqeq(certificate.CertKind(&k.KeyCertificate.Certificate), data[384:385]) && seqeq(certificate.CertLenBytes(&k.KeyCertificate.Certificate), data[385:387]) && seqeq(certificate.CertPayload(&k.KeyCertificate.Certificate), data[387:])
 //@   ensures @C02 @C10 err == nil ==> seqeq(k.ReceivingPublic.Bytes(), data[:CS(k)]) && seqeq(k.SigningPublic.Bytes(), data[384-SS(k):384]) && seqeq(k.Padding, data[CS(k):384-SS(k)])
 //@   ensures @C02 @C10 err == nil ==> key_certificate.SigType(k.KeyCertificate) == WireSigType(data) && key_certificate.CryptoType(k.KeyCertificate) == WireCryptoType(data)
 //@   ensures err != nil ==> k == nil
@@ -61,10 +72,9 @@ package keys_and_cert
 //@   requires keys_and_cert == nil || KacInv(keys_and_cert)
 //@   ensures fresh(b)
 //@   ensures (err == nil) == (keys_and_cert != nil)
-//@   ensures @C01 @C02 err == nil ==> len(b) == 384 + len(certificate.CertWire(&keys_and_cert.KeyCertificate.Certificate))
-//@   ensures @C01 @C02 @C10 err == nil ==> seqeq(b[:384], KacBlock(keys_and_cert))
-//@   ensures @C01 @C02 err == nil ==> seqeq(b[384:], certificate.CertWire(&keys_and_cert.KeyCertificate.Certificate))
-//@   ensures @C01 @C02 err == nil ==> seqeq(b, KacWire(keys_and_cert))
+//@   ensures @C01 @C02 err == nil ==> len(b) == 387 + certificate.CertDataLen(&keys_and_cert.KeyCertificate.Certificate)
+//@   ensures @C01 @C02 @C10 err == nil ==> seqeq(b[:CS(keys_and_cert)], keys_and_cert.ReceivingPublic.Bytes()) && seqeq(b[CS(keys_and_cert):384-SS(keys_and_cert)], keys_and_cert.Padding) && seqeq(b[384-SS(keys_and_cert):384], keys_and_cert.SigningPublic.Bytes())
+//@   ensures @C01 @C02 err == nil ==> seqeq(b[384:385], certificate.CertKind(&keys_and_cert.KeyCertificate.Certificate)) && seqeq(b[385:387], certificate.CertLenBytes(&keys_and_cert.KeyCertificate.Certificate)) && seqeq(b[387:], certificate.CertPayload(&keys_and_cert.KeyCertificate.Certificate)[:certificate.CertDataLen(&keys_and_cert.KeyCertificate.Certificate)])
 //@   modifies nothing
 
 //@ contract (kac *KeysAndCert) Validate() (err error)
